@@ -1,8 +1,9 @@
 import TallyVerif.Driver.Csv
 import TallyVerif.Driver.Engine
 import TallyVerif.Driver.Analyze
+import TallyVerif.Driver.Migrate
 import TallyVerif.Model.Pipeline
-/-! op `pipeline`: `tally up` end to end on the models (C05 parser → transforms → engine → totals). -/
+/-! op `pipeline`: `tally up` end to end on the models (C05 parser → transforms → engine or legacy tuple loop → totals). -/
 namespace TallyVerif.Driver
 open Lean TallyVerif.Py TallyVerif.Expr TallyVerif.Rules TallyVerif.Engine TallyVerif.Pipeline
 
@@ -15,28 +16,55 @@ def rowOfCsv (t : TallyVerif.Csv.Txn) : Row :=
     location := t.location.map String.ofList
     field := t.field.map (fun f => f.map (fun kv => (String.ofList kv.1, String.ofList kv.2))) }
 
+/-- a double shipped as the decimal string of its bit pattern → its exact value in units of 2^-1074 (0 if not finite:
+the harness does not ship such budgets) -/
+def unitsLit (j : Json) (k : String) : TallyVerif.Migrate.NumLit :=
+  ⟨(unitsOfBits (UInt64.ofNat ((jstr j k).toNat?.getD 0))).getD 0, []⟩
+
+def amountCondBits (j : Json) : TallyVerif.Migrate.AmountCond :=
+  match jstr j "op" with
+  | ">" => .gt (unitsLit j "v")
+  | ">=" => .ge (unitsLit j "v")
+  | "<" => .lt (unitsLit j "v")
+  | "<=" => .le (unitsLit j "v")
+  | "=" => .eq (unitsLit j "v")
+  | _ => .range (unitsLit j "lo") (unitsLit j "hi")
+
+def legacyRuleOfJson (j : Json) : LegacyRule :=
+  { rule := lruleOfJson j, patternE := pexprOfJson (jget j "pattern_ast"),
+    mods := ⟨(jarr j "amount").map amountCondBits, (jarr j "date").map Mig.dateCondOf⟩,
+    tags := (jarr j "tag_specs").map tagSpecOf }
+
+def legacyBookOfJson (j : Json) : Option LegacyBook :=
+  match j with
+  | .null => none
+  | _ =>
+    let tbl : List (Nat × TallyVerif.Migrate.Date) := (jarr j "cutoffs").map fun e =>
+      match e with
+      | .arr a => (Mig.natOf (a.getD 0 .null), Mig.dateD (a.getD 1 .null))
+      | _ => (0, ⟨0, 0, 0⟩)
+    some { rules := (jarr j "rules").map legacyRuleOfJson, cutoff := fun n => tbl.lookup n }
+
+def rulebookOfJson (rbj : Json) : Rulebook :=
+  { mode := if jstr rbj "mode" == "most_specific" then Mode.mostSpecific else Mode.firstMatch
+    variables := namedExprs (jget rbj "variables"), transforms := namedExprs (jget rbj "transforms"),
+    rules := (jarr rbj "rules").map ruleXOfJson, hasEngine := jbool rbj "has_engine",
+    legacy := legacyBookOfJson (jget rbj "legacy") }
+
+/-- a configured source of the case: supplemental, or the rows of C05's parser on its own settings -/
+def sourceOfJson (sj : Json) : Source :=
+  if jbool sj "supplemental" then ⟨true, none⟩ else
+  match csvParseJson sj with
+  | .error _ => ⟨false, none⟩                    -- cmd_run: "Error parsing" — the source is skipped
+  | .ok txns => ⟨false, some (txns.map rowOfCsv)⟩
+
 def handlePipeline (j : Json) : Json :=
   let o := oraclesOf (tableOfJson (jget j "oracle"))
-  let rbj := jget j "rulebook"
-  let rb : Rulebook :=
-    { mode := if jstr rbj "mode" == "most_specific" then Mode.mostSpecific else Mode.firstMatch
-      variables := namedExprs (jget rbj "variables"), transforms := namedExprs (jget rbj "transforms"),
-      rules := (jarr rbj "rules").map ruleXOfJson, hasEngine := jbool rbj "has_engine" }
+  let rb := rulebookOfJson (jget j "rulebook")
   let supp := pairsVal (jget j "supp")
   let fnames := fnNames j
-  let step (acc : Except String (List Classified)) (sj : Json) : Except String (List Classified) := do
-    let sofar ← acc
-    if jbool sj "supplemental" then pure sofar else
-    match csvParseJson sj with
-    | .error _ => pure sofar                       -- cmd_run: "Error parsing" — the source is skipped
-    | .ok txns =>
-      let cls ← txns.foldlM (fun (l : List Classified) t =>
-        match classifyRow o fnames modelKey supp rb (rowOfCsv t) with
-        | .ok c => pure (l ++ [c])
-        | .error e => .error ((errJson e).compress)) []
-      pure (sofar ++ cls)
-  match (jarr j "sources").foldl step (.ok []) with
-  | .error e => match Json.parse e with | .ok v => v | .error _ => obj [("err", .str e)]
+  match upLoop (classifyRow o fnames modelKey supp rb) ((jarr j "sources").map sourceOfJson) with
+  | .error e => errJson e
   | .ok cls =>
     let s := TallyVerif.Totals.analyze floatNum asciiLower (cls.map toTotals)
     obj [("txns", .arr (cls.map fun c => obj [("merchant", .str c.merchant), ("category", .str c.category),
@@ -52,11 +80,7 @@ def handlePipeline (j : Json) : Json :=
 /-- op `explain`: `tally explain "<description>" --amount a` on the model -/
 def handleExplain (j : Json) : Json :=
   let o := oraclesOf (tableOfJson (jget j "oracle"))
-  let rbj := jget j "rulebook"
-  let rb : Rulebook :=
-    { mode := if jstr rbj "mode" == "most_specific" then Mode.mostSpecific else Mode.firstMatch
-      variables := namedExprs (jget rbj "variables"), transforms := namedExprs (jget rbj "transforms"),
-      rules := (jarr rbj "rules").map ruleXOfJson, hasEngine := jbool rbj "has_engine" }
+  let rb := rulebookOfJson (jget j "rulebook")
   let row : Row := { description := jstr j "description", amount := UInt64.ofNat ((jstr j "amount").toNat?.getD 0),
                      date := none, source := "", location := none, field := none }
   match classifyRow o (fnNames j) modelKey (pairsVal (jget j "supp")) rb row with
@@ -67,11 +91,7 @@ def handleExplain (j : Json) : Json :=
 /-- op `discoverlist`: the listing of `tally discover` on the model — same input as op `pipeline` -/
 def handleDiscoverList (j : Json) : Json :=
   let o := oraclesOf (tableOfJson (jget j "oracle"))
-  let rbj := jget j "rulebook"
-  let rb : Rulebook :=
-    { mode := if jstr rbj "mode" == "most_specific" then Mode.mostSpecific else Mode.firstMatch
-      variables := namedExprs (jget rbj "variables"), transforms := namedExprs (jget rbj "transforms"),
-      rules := (jarr rbj "rules").map ruleXOfJson, hasEngine := jbool rbj "has_engine" }
+  let rb := rulebookOfJson (jget j "rulebook")
   let rows : List Row := (jarr j "sources").foldl (fun acc sj =>
     if jbool sj "supplemental" then acc else
     match csvParseJson sj with
@@ -82,5 +102,10 @@ def handleDiscoverList (j : Json) : Json :=
   | .ok listed =>
     obj [("transactions", .num rows.length),
          ("listed", .arr (listed.map fun (raw, cnt, tot) => Json.arr #[.str raw, .num cnt, floatToJson tot]).toArray)]
+
+/-- op `legacyshape`: `_is_expression_pattern` on a list of Pattern cells -/
+def handleLegacyShape (j : Json) : Json :=
+  obj [("is_expr", .arr ((jarr j "patterns").map fun p =>
+    Json.bool (isExpressionPattern (jstr p "p") (pexprOfJson (jget p "ast")))).toArray)]
 
 end TallyVerif.Driver
